@@ -140,7 +140,7 @@ SPEC = {
         "spec_simple / spec_nts_dc / spec_nts are the placement rules transcribed from the property text (SimpleStrategy: first RF distinct nodes clockwise; NTS: per datacenter, rack new or repeats allowed, until min(RF, nodes))",
         "hook scylla::cluster::verif_state::cluster_state_via_new (the real ClusterState::new on a Metadata value with a reject-all host filter: pool-less nodes) and scylla::routing::verif_locator::choose_filtered (scripted rand draws; lines whose index could not be scripted are counted and capped)",
         "hooks verif_node_flags::set_node_sharder (per-host Node::sharder override) and verif_state::learn_tablet_from_payload (the real RawTablet::from_custom_payload + ClusterState::update_tablets)",
-        "the property predicates evaluated on the implementation's own output (placement_ok, ordered_ok, views_ok, precomputed_ok) are extracted Coq: meaning theorems (<->) and model theorems for all four (for views_ok the choose_filtered conjunct is a premise of C04_views_ok_model and the endpoints argument is the iteration itself); the kind-T consistency test (len, nth, ordered view as a multiset, number and membership of choose results, the interleaving through extracted plist_run - all against the implementation's own into_iter) and the enumeration of token-order variants on rings with a repeated token (at most 720 orders; above that a placement / ring-order failure is reported as diff) are OCaml code of the driver",
+        "the property predicates evaluated on the implementation's own output (placement_ok, ordered_ok, views_ok, precomputed_ok) are extracted Coq: meaning theorems (<->) and model theorems for all four (for views_ok the choose_filtered conjunct is a premise of C04_views_ok_model and the endpoints argument is the iteration itself); the kind-T consistency test (len, nth, ordered view as a multiset, number and membership of choose results, the interleaving through extracted plist_run - all against the implementation's own into_iter) and the enumeration of token-order variants on rings with a repeated token (at most 720 orders; above that a placement / ring-order failure is reported as diff) are OCaml code of the driver; the extracted helpers they use are characterised by C04_tokens_distinct_sound / C04_helpers_sound and the order-independent judgement above the cap rests on C04_count_order_independent / C04_replicas_own_tokens",
         "shard_of is C11's model function (C11_shard_spec / C11_shard_lt are not re-imported); a shard or size_hint mismatch alone is a diff",
     ],
     "assumptions": [
